@@ -808,9 +808,14 @@ int cif_parse_internal(struct scanner_s *scanner, int not_utf8, const char *extr
 
                 if (scanner->cif_version == 1) {
                     if (scanned_bom) {
-                        /* error: disallowed CIF 1 character */
+                        /*
+                         * error: disallowed CIF 1 character.  The BOM itself may no longer be in the buffer (it is
+                         * discarded when the buffer is refilled), so present a copy of it to the callback.
+                         */
+                        static const UChar bom_text[] = { UCHAR_BOM, 0 };
+
                         FAILURE_VARIABLE = scanner->error_callback(CIF_DISALLOWED_CHAR, 1, 0,
-                                scanner->next_char - 1, 1, scanner->user_data);
+                                bom_text, 1, scanner->user_data);
                         /* recover, if necessary, by ignoring the problem */
                     }
                     SET_V1(scanner);
